@@ -386,3 +386,34 @@ def fold_concrete(I, st, recv, name, args, kwargs):
 FOLDABLE = {"upper", "lower", "strip", "lstrip", "rstrip", "startswith", "endswith", "encode", "decode", "zfill", "hex", "title",
             "replace", "find", "rfind", "isdigit", "isascii", "count", "partition", "rpartition", "split", "join", "format", "index",
             "casefold", "capitalize"}
+
+
+def r_dict_update(I, st, recv, args, kwargs, fr, k):
+    """d.update(other) for heap dicts: membership is the union, other's values win (insertion order not modelled here)."""
+    t = recv.t
+    if len(args) != 1 or kwargs:
+        raise Unsupported("dict.update with keywords")
+    o = args[0]
+    if isinstance(o, LDict):
+        loc = get_loc(t)
+        for key, v in st.lheap[o.id].items():
+            B.dict_store(I, st, loc, I.const_term(key), I.term(st, v))
+        return k(st, Sym(NONE))
+    if not isinstance(o, Sym):
+        raise Unsupported(f"dict.update({o!r})")
+    def ok(s2):
+        loc, lo = get_loc(t), get_loc(o.t)
+        has1, has2 = s2.read(HAS, loc), s2.read(HAS, lo)
+        map1, map2 = s2.read(MAP, loc), s2.read(MAP, lo)
+        kv = z3.Const(I.w.fresh("k"), V)
+        s2.write(HAS, loc, z3.Lambda([kv], z3.Or(z3.Select(has1, kv), z3.Select(has2, kv))))
+        s2.write(MAP, loc, z3.Lambda([kv], z3.If(z3.Select(has2, kv), z3.Select(map2, kv), z3.Select(map1, kv))))
+        n = z3.Int(I.w.fresh("n"))
+        s2.fact(n >= s2.read(LEN, loc), n >= s2.read(LEN, lo), n <= s2.read(LEN, loc) + s2.read(LEN, lo))
+        s2.write(LEN, loc, n)
+        return k(s2, Sym(NONE))
+    both = z3.And(I.w.isinstance_term(t, ["builtins.dict"]), I.w.isinstance_term(o.t, ["builtins.dict"]))
+    return I.branch(st, both, ok, lambda s2: B.unsupported_path(I, s2, "dict.update on/with a non-dict"))
+
+
+REF_METHODS["update"] = r_dict_update
